@@ -60,7 +60,7 @@ class StreamProp(E2Prop):
         return out
     def monitor(self, case_line, trace, mline):
         case, ots = self.parse(case_line, trace)
-        return compare_reader(case, ots) or monitors.mon_c09(case, ots)
+        return monitors.mon_emptybuf(ots) or compare_reader(case, ots) or monitors.mon_c09(case, ots)
 
 class C02(StreamProp):
     id = 'C02'
@@ -82,6 +82,21 @@ class C05(StreamProp):
     level_note = 'Trusted: Coq kernel, Codec.v, correspondence over buffer sizes'
     def generate(self, tier, rng):
         out = self.gen_streams(tier, rng)
+        # every (pre-read length, next cut) inside the header of each header class x small read buffers
+        k2 = 0
+        heads = []
+        for role in 'sc':
+            for n in (5, 126, 65536):
+                heads.append((role, gen_e2.peer_frame(role, 2, bytes(range(7)) * (n // 7) + bytes(range(n % 7))) + gen_e2.peer_frame(role, 1, b'ok')))
+                heads.append((role, gen_e2.peer_frame(role, 2, b'abcde', lenform=16 if n == 126 else 64 if n == 65536 else None) + gen_e2.peer_frame(role, 9, b'')))
+        combos = [(hi, pre, cut, rbs) for hi in range(len(heads)) for pre in range(0, 16) for cut in range(pre, 17)
+                  for rbs in (0, 1, 2, 5, 6, 7, 8, 13, 14, 15, 16, 64)]
+        if tier == 'quick':
+            combos = rng.sample(combos, 2500)
+        for hi, pre, cut, rbs in combos:
+            role, data = heads[hi]
+            chunks = [c for c in (data[pre:cut], data[cut:]) if c]
+            out.append(gen_streams.reader_case('h%d' % k2, role, chunks, 6, rbs=rbs, pre=data[:pre], wb_between=(k2 % 3 == 0))); k2 += 1
         # exhaustive pairs of cuts for short streams
         short = [b''.join(gen_streams.stream_case(rng)['frames']) for _ in range(30)]
         k = 0
@@ -126,17 +141,33 @@ class C06(StreamProp):
                 # announced lengths with no payload
                 for n in (F + 1, 2**16, 2**32, 2**63 - 1, 2**63, 2**64 - 1):
                     hdr = bytes([0x82, (0x80 if role == 's' else 0) | 127]) + n.to_bytes(8, 'big') + (b'\x01\x02\x03\x04' if role == 's' else b'')
-                    out.append(gen_streams.reader_case('l%d' % k, role, [hdr], 3, mms=M, mfs=F, rbs=rbs, end=None)); k += 1
+                    out.append(gen_streams.reader_case('l%d' % k, role, [hdr], 4, mms=M, mfs=F, rbs=rbs, end=None)); k += 1
         return reid(out)
     def monitor(self, case_line, trace, mline):
         case, ots = self.parse(case_line, trace)
         v = compare_reader(case, ots)
         if v: return v
-        for r in read_results(ots, case.ops):
+        rr = read_results(ots, case.ops)
+        for r in rr:
             if r.startswith('ok:T:') or r.startswith('ok:B:'):
                 n = len(ws.unhx(r[5:]))
                 if case.mms is not None and n > case.mms:
                     return 'message-over-limit: delivered %d bytes with max_message_size %d' % (n, case.mms)
+        # once a frame header announced more than max_frame_size, that frame must never be accepted, however often
+        # the caller retries, and no call may try to allocate for it (a panic in reserve is such an attempt)
+        seen_cap = False
+        items, _ = rfc.decode(ws.inbound_of(case, ots), case.role, case.au, case.mfs, case.mms)
+        frame_rule = bool(items) and items[-1][0] == 'ERR' and items[-1][2] == 'frame-too-long'
+        for r in rr:
+            if r.startswith('err:cap:'):
+                p = r.split(':')
+                if frame_rule and case.mfs is not None and int(p[3]) == case.mfs and int(p[2]) > case.mfs:
+                    seen_cap = True
+                continue
+            if seen_cap and (r.startswith('ok:T:') or r.startswith('ok:B:') or r.startswith('ok:P')):
+                return 'over-limit-frame-accepted-on-retry: a read after the frame-size capacity error delivered %s' % r[:40]
+            if seen_cap and r.startswith('panic'):
+                return 'over-limit-frame-allocation-on-retry: a read after the frame-size capacity error panicked (allocation for the announced length)'
         return None
 
 class C08(StreamProp):
@@ -418,6 +449,21 @@ class C12(E2Prop):
         for tok in ('CE',):
             for role in 'sc':
                 out.append(gen_e2.history('e%d' % k, role, ['r', 'f', 'f'], [tok])); k += 1
+        # pending pong still parked when the Close arrives: momentarily full buffer on a blocked transport
+        for role in 'sc':
+            for code in (1000, 1005, 3000, 4999, 0, 999, 2999, 5000):
+                for reason in (b'', b'bye'):
+                    data = bytes(range(16))
+                    fsz = gen_e2.frame_size(role, 16)
+                    fr = gen_e2.peer_frame(role, 8, gen_e2.close_payload(code, reason))
+                    ping = gen_e2.peer_frame(role, 9, b'pp')
+                    for together in (True, False):
+                        rds = ['d:' + ws.hx(ping + fr)] if together else ['d:' + ws.hx(ping), 'd:' + ws.hx(fr)]
+                        for mx in (fsz, fsz + 3, fsz + 30):
+                            # the property's precondition: max holds the largest single frame of the history (here the reply)
+                            reply = (2 + len(reason)) if ws.close_allowed(code) else 20
+                            out.append(ws.scase_line('t%d' % k, role, ['wb:' + ws.hx(data), 'r', 'r', 'f', 'f', 'f', 'f'], rds,
+                                                     ['e:wb', 'e:wb', 'e:wb'], [], max_=max(mx, gen_e2.frame_size(role, reply)))); k += 1
         return reid(self.corpus() + out)
     def monitor(self, case_line, trace, mline):
         case, ots = self.parse(case_line, trace)
@@ -469,12 +515,20 @@ class C14(E2Prop):
                 out.append(gen_e2.history('f%d' % k, role, ops, ['PI', 'PI2', 'PI', 'PI0', 'PI', 'T'], 'wb8', 'ok', wbs, max(mx, gen_e2.frame_size(role, 4)))); k += 1
         for i in range(500 if tier == 'quick' else 6000):
             out.append(gen_e2.random_history(rng, 'h%d' % i, tight_prob=0.8))
+        # batching after the connection went through automatic replies under a blocked transport
+        for role in 'sc':
+            for wbs in (10, 100, 600):
+                for wpat in ('accept', 'wb1', 'wb2', 'wb3'):
+                    for fpat in ('ok', 'fwb1', 'fwb2'):
+                        for pre in (['r'], ['r', 'r'], ['r', 'f'], ['r', 'wt:6869'], []):
+                            ops = pre + ['f', 'f', 'f', 'wt:61', 'wt:62', 'wb:00', 'f', 'wt:63']
+                            out.append(gen_e2.history('q%d' % k, role, ops, ['PI'] * sum(1 for o in pre if o == 'r'), wpat, fpat, wbs, None)); k += 1
         return reid(self.corpus() + out)
     def monitor(self, case_line, trace, mline):
         case, ots = self.parse(case_line, trace)
         v = monitors.mon_c14(case, ots)
         if v: return v
-        return monitors.mon_c14_bound(case, ots)
+        return monitors.mon_c14_bound(case, ots) or monitors.mon_c14_batching(case, ots)
 
 class C07(E2Prop):
     id = 'C07'
@@ -519,6 +573,12 @@ class C07(E2Prop):
                                      rbs=rng.choice([0, 1, 7, 4096])))
         for i in range(300 if tier == 'quick' else 3000):
             out.append(gen_e2.random_history(rng, 'h%d' % i, long=True))
+        for role in 'sc':
+            for n_ in (11, 2**16, 2**32, 2**63 - 1, 2**63, 2**64 - 1):
+                for mfs in (0, 10, 1000):
+                    hdr = bytes([0x82, (0x80 if role == 's' else 0) | 127]) + n_.to_bytes(8, 'big') + (b'\x01\x02\x03\x04' if role == 's' else b'')
+                    for tailb in (b'', b'abcdefghijkl'):
+                        out.append(ws.scase_line('z', role, ['r', 'r', 'r', 'f', 'r'], ['d:' + ws.hx(hdr + tailb)], [], [], mms=1000, mfs=mfs, rbs=rng.choice([0, 7, 4096])))
         out = reid(self.corpus() + out)
         # handshake half: reuse the C17 generator (heads x transport outcomes) with unique ids
         hs = C17().generate(tier, rng)
@@ -537,6 +597,8 @@ class C07(E2Prop):
         if case_line.startswith('S '):
             # bounded work: a call makes no more transport reads than there are scripted outcomes + 1 per call
             case, ots = self.parse(case_line, trace)
+            v = monitors.mon_emptybuf(ots)
+            if v: return v
             for ot in ots:
                 if len(ot.events) > 3 * (len(case.rds) + len(case.wrs) + len(case.fls)) + 50:
                     return 'unbounded-work: one call made %d transport calls' % len(ot.events)
